@@ -174,6 +174,8 @@ def all_exprs(full):
   r1 = ('rec', (('a', x), ('b', y))); r2 = ('rec', (('a', x), ('r', ('rec', (('c', y), ('d', Bin('+', x, y)))))))
   out += [r1, r2, ('fld', r1, 'a'), ('fld', r1, 'b'), ('fld', ('fld', r2, 'r'), 'd'), ('fld', r2, 'r'), Bin('+', ('fld', r1, 'a'), ('fld', ('fld', r2, 'r'), 'c')),
           ('rec', (('l', l1), ('n', N(1)))), ('fld', ('rec', (('l', l1), ('n', N(1)))), 'l'), ('list', (r1,)), ('fld', ('elem', ('list', (r1, r1)), N(1)), 'b')]
+  out += [('rec', (('a', x), ('big', Bin('>', x, N(1))))), ('list', (Bin('>', x, N(1)), Bin('==', y, N(2)))), ('rec', (('s', Call('ToString', x)), ('ok', Bin('&&', Bin('<', x, y), Bin('>', y, N(1)))), ('l', ('list', (x,))))),
+          ('fld', ('rec', (('a', x), ('big', Bin('>', x, N(1))))), 'big'), ('list', (('rec', (('f', Bin('<', x, y)),)),))]
   out += [('un', '-', ('un', '-', y)), Bin('+', y, ('un', '-', N(-1))), ('un', '-', N(-2)), Bin('-', x, ('un', '-', y)), Bin('*', ('un', '-', ('un', '-', x)), N(-1)), ('un', '-', Bin('-', N(0), x))]
   out += [Call('Greatest', x, y), Call('Least', x, y), Call('Greatest', x, Bin('+', y, N(1))), ('isnull', x), ('un', '!', ('isnull', x))]
   return out
